@@ -293,6 +293,14 @@ IObs(c, kb) ==
   IN [look |-> look, look1 |-> look, has |-> [k \in DOMAIN kb |-> look[k] # Absent],
       ent |-> ent, niter |-> Cardinality(DOMAIN ent), count |-> Cardinality(DOMAIN ent), badbucket |-> 0]
 
+\* append_update: append u to bucket b; a full update section is flushed first and the append retried, like
+\* add_entry.  Before the fix of F05a ("F05a" \in cd) a full section made update/status return false and
+\* remove return true (whenFull), in both cases with nothing changed.
+IAppendUpdate(c, b, u, cd, whenFull, Ev(_, _)) ==
+  IF IRoom(c, b) THEN Ev(IAppend(c, b, u), [res |-> "true"])
+  ELSE IF "F05a" \in cd THEN Ev(c, [res |-> whenFull])
+  ELSE Ev(IAppend(IFlushB(c, b), b, u), [res |-> "true"])
+
 \* [st |-> next code state, ev |-> the event the driver would record]
 IApply(c, kb, o, cd) ==
   LET Ev(st, extra) == [st |-> st, ev |-> (o @@ extra) @@ [obs |-> IObs(st, kb)]]
@@ -305,19 +313,13 @@ IApply(c, kb, o, cd) ==
          IN Ev(IAddN(c, kb, o.k, o.loc, n1 + n2), [res |-> "ok", n |-> n1 + n2])
     [] o.op = "update" ->
          IF ILook(c, kb, o.k) = Absent THEN Ev(c, [res |-> "false"])
-         ELSE IF IRoom(c, kb[o.k]) THEN Ev(IAppend(c, kb[o.k], U(o.k, o.loc, "normal")), [res |-> "true"])
-         ELSE Ev(c, [res |-> "false"])
+         ELSE IAppendUpdate(c, kb[o.k], U(o.k, o.loc, "normal"), cd, "false", Ev)
     [] o.op = "status" ->
          IF ILook(c, kb, o.k) = Absent THEN Ev(c, [res |-> "false"])
-         ELSE IF IRoom(c, kb[o.k]) THEN Ev(IAppend(c, kb[o.k], U(o.k, ILook(c, kb, o.k), o.st)), [res |-> "true"])
-         ELSE Ev(c, [res |-> "false"])
+         ELSE IAppendUpdate(c, kb[o.k], U(o.k, ILook(c, kb, o.k), o.st), cd, "false", Ev)
     [] o.op = "remove" ->
-         LET b == kb[o.k]
-             t == U(o.k, ILook(c, kb, o.k), "delete")
-         IN IF ILook(c, kb, o.k) = Absent THEN Ev(c, [res |-> "false"])
-            ELSE IF IRoom(c, b) THEN Ev(IAppend(c, b, t), [res |-> "true"])
-            ELSE IF "F05a" \in cd THEN Ev(c, [res |-> "true"])            \* the failed append is ignored
-            ELSE Ev(IAppend(IFlushB(c, b), b, t), [res |-> "true"])        \* flush and retry, like add_entry
+         IF ILook(c, kb, o.k) = Absent THEN Ev(c, [res |-> "false"])
+         ELSE IAppendUpdate(c, kb[o.k], U(o.k, ILook(c, kb, o.k), "delete"), cd, "true", Ev)
     [] o.op = "flush" -> Ev(IFlushB(c, o.b), [res |-> "ok"])
     [] o.op = "flush_all" ->
          LET RECURSIVE FA(_, _)
